@@ -2,12 +2,15 @@ import DuneVerif.Model.C17
 import DuneVerif.Common.Proto
 /-! line-protocol driver for C17 (see harness/cxx_c17.cc for the op lines)
 
-  cmp   <T> <style> <a> <b> <eps>                 six comparisons; numbers are exact dyadics `m:e` = m·2^e
-  cmpv  <T> std|fv <style> [a,..] [b,..] <eps>    vector overloads
-  round <T> <I> <style> <rstyle> <val> <eps>      trunc likewise
+  cmp   <T> <style> <a> <b> <eps>                 six comparisons; numbers are exact dyadics `m:e` = m·2^e; evaluated over
+                                                  the rationals on the domain where every C++ intermediate is exact
+  cmpv  <T> std|fv <style> [a,..] [b,..] <eps>    vector overloads (rationals)
+  round <T> <I> <style> <rstyle> <val> <eps>      trunc likewise (rationals)
+  fcmp / fcmpv / fround / ftrunc                  the same with T = f32|f64|f80 on ARBITRARY finite values of the format,
+                                                  evaluated in the rounding arithmetic `FP f`; eps may be `def` (argument omitted)
   laws  …                                         law-only run on arbitrary bit patterns: the model is silent (`n/a`)
-  mf    <style> <a> <b> <eps>                     8-bit minifloat codes 0..255, operations round
-  mfr   <style> <rstyle> <val> <eps>              round/trunc in the minifloat format
+  mf    <style> <a> <b> <eps|def>                 8-bit minifloat codes 0..255, operations round
+  mfr   <style> <rstyle> <val> <eps|def>          round/trunc in the minifloat format
   defeps <T> <style>
   pow <t> <te> <m> <p> | powf <T> <m:e> <p> | fact <t> <n> | binom <t> <n> <k> | sign <t|T> <x>
   cls fv|cx|fvcx|un <fmt> [hex,..]
@@ -76,6 +79,29 @@ def parseHexList? (s : String) : Option (List Nat) :=
   let inner := String.ofList ((cs.drop 1).dropLast)
   if inner.isEmpty then some [] else (inner.splitOn ",").mapM parseHex?
 
+
+
+def parseFmt? : String → Option Fmt
+  | "f32" => some Fmt.f32
+  | "f64" => some Fmt.f64
+  | "f80" => some Fmt.f80
+  | _ => none
+
+/-- `m:e` as a value of the format (none if it is not one) -/
+def parseFP? (f : Fmt) (s : String) : Option (FP f) :=
+  match s.splitOn ":" with
+  | [m, e] => match m.toInt?, e.toInt? with
+    | some m, some e => if e < -100000 ∨ e > 100000 then none else FP.ofDyadic? f m e
+    | _, _ => none
+  | _ => none
+
+def parseFPList? (f : Fmt) (s : String) : Option (List (FP f)) :=
+  let cs := s.toList
+  if cs.length < 2 then none else
+  if cs.head? ≠ some '[' || cs.getLast? ≠ some ']' then none else
+  let inner := String.ofList ((cs.drop 1).dropLast)
+  if inner.isEmpty then some [] else (inner.splitOn ",").mapM (parseFP? f)
+
 def six (eq ne lt gt le ge : Bool) : String :=
   s!"eq={showB eq} ne={showB ne} lt={showB lt} gt={showB gt} le={showB le} ge={showB ge}"
 
@@ -95,7 +121,37 @@ def defaultEps? : String → Style → Option Dy
   | "f64", .relativeWeak => some Gen.defaultEps_relativeWeak_f64
   | "f64", .relativeStrong => some Gen.defaultEps_relativeStrong_f64
   | "f64", .absolute => some Gen.defaultEps_absolute_f64
+  | "f80", .relativeWeak => some Gen.defaultEps_relativeWeak_f80
+  | "f80", .relativeStrong => some Gen.defaultEps_relativeStrong_f80
+  | "f80", .absolute => some Gen.defaultEps_absolute_f80
+  | "mf8", .relativeWeak => some Gen.defaultEps_relativeWeak_mf8
+  | "mf8", .relativeStrong => some Gen.defaultEps_relativeStrong_mf8
+  | "mf8", .absolute => some Gen.defaultEps_absolute_mf8
   | _, _ => none
+
+/-- the epsilon operand of an `f…` op: a non-negative finite value of the format, or `def` = the default epsilon -/
+def parseEpsFP? (f : Fmt) (t : String) (s : Style) (tok : String) : Option (FP f) :=
+  if tok == "def" then
+    (defaultEps? t s).bind fun d => let (m, e) := d.normal; FP.ofDyadic? f m e
+  else match parseFP? f tok with
+    | some (.fin n) => if n < 0 then none else some (.fin n)
+    | _ => none
+
+def mfEps? (s : Style) (tok : String) : Option MF :=
+  if tok == "def" then
+    (defaultEps? "mf8" s).bind fun d => let (m, e) := d.normal; FP.ofDyadic? Fmt.mf8 m e
+  else match tok.toNat? with
+    | some e => if e < 120 then some (MF.decode e) else none
+    | none => none
+
+/-- `I(val)`, `lower-1`, `upper+1` stay inside the target type (and the argument is not negative for unsigned targets) -/
+def rtInRange (ity : IType) (v : FP f) : Bool :=
+  match v with
+  | .fin n =>
+    let t := FP.trunc v
+    if ity.signed then decide (-(ity.hi - 2) ≤ t) && decide (t ≤ ity.hi - 2)
+    else decide (0 ≤ n) && decide (t ≤ ity.hi - 2)
+  | _ => false
 
 def mfFinite (c : Nat) : Bool := c < 256 && c / 8 % 16 != 15
 
@@ -105,42 +161,80 @@ def handle (line : String) : String :=
     match parseFT? t, parseStyle? st, Dy.parse? a, Dy.parse? b, Dy.parse? e with
     | some ft, some s, some a, some b, some e =>
       if !(okVal ft a && okVal ft b && okEps ft e) then "skip" else
-      six (eqS s a b e) (neS s a b e) (ltS s a b e) (gtS s a b e) (leS s a b e) (geS s a b e)
+      let a := a.toRat; let b := b.toRat; let e := e.toRat
+      six (eqRat s a b e) (neRat s a b e) (ltRat s a b e) (gtRat s a b e) (leRat s a b e) (geRat s a b e)
     | _, _, _, _, _ => "bad-op"
+  | ["fcmp", t, st, a, b, e] =>
+    match parseFmt? t, parseStyle? st with
+    | some f, some s =>
+      match parseFP? f a, parseFP? f b, parseEpsFP? f t s e with
+      | some a, some b, some e => six (eqS s a b e) (neS s a b e) (ltS s a b e) (gtS s a b e) (leS s a b e) (geS s a b e)
+      | _, _, _ => "bad-op"
+    | _, _ => "bad-op"
+  | ["fcmpv", t, kind, st, a, b, e] =>
+    match parseFmt? t, parseStyle? st with
+    | some f, some s =>
+      match parseFPList? f a, parseFPList? f b, parseEpsFP? f t s e with
+      | some a, some b, some e =>
+        match kind with
+        | "std" => six (eqVec s a b e) (neVec s a b e) (ltVec s a b e) (gtVec s a b e) (leVec s a b e) (geVec s a b e)
+        | "fv" => if a.length != b.length || a.length == 0 || a.length > 4 then "bad-op" else
+                  s!"eq={showB (eqFV s a b e)} ne={showB (neFV s a b e)}"
+        | _ => "bad-op"
+      | _, _, _ => "bad-op"
+    | _, _ => "bad-op"
   | ["cmpv", t, kind, st, a, b, e] =>
     match parseFT? t, parseStyle? st, parseDyList? a, parseDyList? b, Dy.parse? e with
     | some ft, some s, some a, some b, some e =>
       if !(a.all (okVal ft) && b.all (okVal ft) && okEps ft e) then "skip" else
+      let a := a.map Dy.toRat; let b := b.map Dy.toRat; let e := e.toRat
       match kind with
-      | "std" => six (eqVec s a b e) (neVec s a b e) (ltVec s a b e) (gtVec s a b e) (leVec s a b e) (geVec s a b e)
+      | "std" => six (eqVecRat s a b e) (neVecRat s a b e) (ltVecRat s a b e) (gtVecRat s a b e) (leVecRat s a b e) (geVecRat s a b e)
       | "fv" => if a.length != b.length || a.length == 0 || a.length > 4 then "bad-op" else
-                s!"eq={showB (eqFV s a b e)} ne={showB (neFV s a b e)}"
+                s!"eq={showB (eqFVRat s a b e)} ne={showB (neFVRat s a b e)}"
       | _ => "bad-op"
     | _, _, _, _, _ => "bad-op"
   | [op, t, it, st, rs, v, e] =>
+    if op == "fround" || op == "ftrunc" then
+      match parseFmt? t, parseIType? it, parseStyle? st, parseRStyle? rs with
+      | some f, some ity, some s, some r =>
+        match parseFP? f v, parseEpsFP? f t s e with
+        | some v, some e =>
+          if !(rtInRange ity v) then "skip" else
+          if op == "fround" then toString (round s r FP.trunc v e) else toString (trunc s (!ity.signed) r FP.trunc v e)
+        | _, _ => "bad-op"
+      | _, _, _, _ => "bad-op"
+    else
     if op != "round" && op != "trunc" then "bad-op" else
     match parseFT? t, parseIType? it, parseStyle? st, parseRStyle? rs, Dy.parse? v, Dy.parse? e with
     | some ft, some ity, some s, some r, some v, some e =>
       if !(okVal ft v && okEps ft e) then "skip" else
       if !ity.signed && v < (0 : Dy) then "skip" else
-      if op == "round" then toString (round s r Dy.trunc v e) else toString (trunc s (!ity.signed) r Dy.trunc v e)
+      let v := v.toRat; let e := e.toRat
+      if op == "round" then toString (roundRat s r v e) else toString (truncRat s (!ity.signed) r v e)
     | _, _, _, _, _, _ => "bad-op"
   | ["laws", t, st, _, _, _] =>
     match parseFT? t, parseStyle? st with
     | some _, some _ => "n/a"
     | _, _ => "bad-op"
   | ["mf", st, a, b, e] =>
-    match parseStyle? st, a.toNat?, b.toNat?, e.toNat? with
-    | some s, some a, some b, some e =>
-      if !(mfFinite a && mfFinite b && mfFinite e) || e ≥ 128 then "skip" else
-      let a := MF.decode a; let b := MF.decode b; let e := MF.decode e
-      six (eqS s a b e) (neS s a b e) (ltS s a b e) (gtS s a b e) (leS s a b e) (geS s a b e)
-    | _, _, _, _ => "bad-op"
+    match parseStyle? st, a.toNat?, b.toNat? with
+    | some s, some a, some b =>
+      match mfEps? s e with
+      | some e =>
+        if !(mfFinite a && mfFinite b) then "skip" else
+        let a := MF.decode a; let b := MF.decode b
+        six (eqS s a b e) (neS s a b e) (ltS s a b e) (gtS s a b e) (leS s a b e) (geS s a b e)
+      | none => if e.toNat?.isSome then "skip" else "bad-op"
+    | _, _, _ => "bad-op"
   | ["mfrow", st, a, e] =>
-    match parseStyle? st, a.toNat?, e.toNat? with
-    | some s, some a, some e =>
-      if !(mfFinite a && mfFinite e) || e ≥ 128 then "skip" else
-      let a := MF.decode a; let e := MF.decode e
+    match parseStyle? st, a.toNat? with
+    | some s, some a =>
+      match mfEps? s e with
+      | none => if e.toNat?.isSome then "skip" else "bad-op"
+      | some e =>
+      if !(mfFinite a) then "skip" else
+      let a := MF.decode a
       let cell (i : Nat) : List Char :=
         let b := MF.decode (if i < 120 then i else i + 8)
         let bit (x : Bool) (k : Nat) : Nat := if x then 2 ^ k else 0
@@ -148,16 +242,19 @@ def handle (line : String) : String :=
                     + bit (leS s a b e) 1 + bit (geS s a b e) 0
         [hexChar (byte / 16), hexChar (byte % 16)]
       String.ofList ((List.range 240).flatMap cell)
-    | _, _, _ => "bad-op"
+    | _, _ => "bad-op"
   | ["static"] =>
-    s!"{showOpt (binomial int32 7 7)} {showOpt (binomial int32 (-1) (-1))}"
+    s!"{showOpt (binomial int32 7 7)} {showOpt (binomial int32 (-1) (-1))} {showOpt (factorial uint32 5)} {showOpt (factorial uint64 20)} {showOpt (binomial uint32 6 2)} {showOpt (binomial uint64 40 20)} {showOpt (binomial uint32 5 9)}"
   | ["mfr", st, rs, v, e] =>
-    match parseStyle? st, parseRStyle? rs, v.toNat?, e.toNat? with
-    | some s, some r, some v, some e =>
-      if !(mfFinite v && mfFinite e) || e ≥ 128 then "skip" else
-      let v := MF.decode v; let e := MF.decode e
-      s!"round={round s r MF.trunc v e} trunc={trunc s false r MF.trunc v e}"
-    | _, _, _, _ => "bad-op"
+    match parseStyle? st, parseRStyle? rs, v.toNat? with
+    | some s, some r, some v =>
+      match mfEps? s e with
+      | none => if e.toNat?.isSome then "skip" else "bad-op"
+      | some e =>
+      if !(mfFinite v) then "skip" else
+      let v := MF.decode v
+      s!"round={round s r FP.trunc v e} trunc={trunc s false r FP.trunc v e}"
+    | _, _, _ => "bad-op"
   | ["defeps", t, st] =>
     match parseStyle? st with
     | some s => match defaultEps? t s with
